@@ -4,7 +4,7 @@
    pot_fill, treat_fill, geomcomp, comp_names) are those of C09/Model.v that
    the correspondence ties execute against the Python code. *)
 From Coq Require Import List NArith ZArith QArith Qpower Bool String Ascii.
-From T4V Require Import Base.Str C09.Model C09.Spec C09.ProofsNorm C09.ProofsIdem C09.ProofsValue C09.ProofsFill C09.ProofsComp.
+From T4V Require Import Base.Str C09.Model C09.Spec C09.ProofsNorm C09.ProofsIdem C09.ProofsValue C09.ProofsLike C09.ProofsFill C09.ProofsComp.
 Import ListNotations.
 Open Scope string_scope.
 
@@ -104,6 +104,36 @@ Example C09_value_nontrivial :
   (number_value (mkNumber "" "" (Some "0500") None) == (5 # 100))%Q.
 Proof. split; vm_compute; reflexivity. Qed.
 
+(* float-free and exact: two spellings of well-formed numbers get the same
+   normalised string IFF they spell the same canonical number (same sign
+   string, integer digits and exponent string, same fraction up to its final
+   zeros — canon_number); hence numerically different densities never share a
+   name, and equal names mean equal values *)
+Example C09_canon_number_unfold : forall n,
+  canon_number n =
+  match n_exp n, n_frac n with
+  | None, Some f => mkNumber (n_sign n) (n_int n) (Some (canon_frac f)) (n_exp n)
+  | Some _, Some f => mkNumber (n_sign n) (n_int n) (Some (keep_frac (n_int n) f)) (n_exp n)
+  | _, None => n
+  end.
+Proof. intros. reflexivity. Qed.
+
+Theorem C09_same_name_iff :
+  forall (n1 : number) (p1 : nat) (m1 : marker) (n2 : number) (p2 : nat) (m2 : marker),
+  wf_number n1 = true -> marker_ok n1 m1 = true -> wf_number n2 = true -> marker_ok n2 m2 = true ->
+  (normalize_float (spell n1 p1 m1) = normalize_float (spell n2 p2 m2) <->
+   canon_number n1 = canon_number n2).
+Proof. exact same_name_iff. Qed.
+Print Assumptions C09_same_name_iff.
+
+Theorem C09_different_values_different_names :
+  forall (n1 : number) (p1 : nat) (m1 : marker) (n2 : number) (p2 : nat) (m2 : marker),
+  wf_number n1 = true -> marker_ok n1 m1 = true -> wf_number n2 = true -> marker_ok n2 m2 = true ->
+  ~ (number_value n1 == number_value n2)%Q ->
+  normalize_float (spell n1 p1 m1) <> normalize_float (spell n2 p2 m2).
+Proof. exact different_values_different_names. Qed.
+Print Assumptions C09_different_values_different_names.
+
 (* for ALL strings (no assumption on the token): what normalize_float returns
    is a fixed point; hence whatever density parse_material stores satisfies the
    hypothesis [dens_normal] of C09_compositions_exact below *)
@@ -156,6 +186,43 @@ Example C09_like_but_void_nontrivial :
   cell_material ["1"; "-1.0"] (Some "0") None = Ok ("0", None) /\
   geomcomp_lines [(2%Z, mkVol false [])] [(2%Z, mkCell "0" None 1 0 None [])] = Ok [("m0", 1%N, [2%Z])].
 Proof. vm_compute. split; reflexivity. Qed.
+
+(* LIKE chains (parse_one_cell): [chain_of] is the path of option lists from the
+   base card to the cell; the LIKE loop hands parse_one_cell_worker the base
+   card's material tokens and the LAST MAT= and the LAST RHO= met along that
+   path — an override written on an intermediate card reaches every later copy
+   unless a later card overrides it again *)
+Theorem C09_like_chain_last_wins :
+  forall (fuel : nat) (cards : idict card) (c : card) (toks : list string) (ch : list (list opt)),
+  chain_of fuel cards c = Ok (toks, ch) ->
+  card_material fuel cards c =
+    cell_material toks (last_some (map (fun o => kw_mat o None) ch))
+                       (last_some (map (fun o => kw_rho o None) ch)).
+Proof. exact like_chain_last_wins. Qed.
+Print Assumptions C09_like_chain_last_wins.
+
+(* one hop, whatever is behind the model cell: own entries win, the rest is
+   inherited from what the model cell resolved to *)
+Theorem C09_like_inherits :
+  forall (fuel : nat) (cards : idict card) (n : Z) (o : list opt) (c' : card) (toks : list string) (o' : list opt),
+  ilookup n cards = Some c' -> like_resolve fuel cards c' = Ok (toks, o') ->
+  card_material (S fuel) cards (Like n o) =
+    cell_material toks
+      (match kw_mat o None with Some x => Some x | None => kw_mat o' None end)
+      (match kw_rho o None with Some x => Some x | None => kw_rho o' None end).
+Proof. exact like_inherits. Qed.
+Print Assumptions C09_like_inherits.
+
+(* the regression seeded by the lead, on the model: cell 4 LIKE 3 (no own
+   MAT/RHO), cell 3 LIKE 2 BUT MAT=2 RHO=-7.8: cell 4 keeps material 2 *)
+Example C09_like_chain_nontrivial :
+  let cards := [(2, Plain ["1"; "-1.0"] [OOther]); (3, Like 2 [OMat "2"; ORho "-7.80"; OOther]);
+                (4, Like 3 [OOther]); (5, Like 4 [ORho "-7.9"])]%Z in
+  card_material 5 cards (Like 3 [OOther]) = Ok ("2", Some "-7.8") /\
+  card_material 5 cards (Like 4 [ORho "-7.9"]) = Ok ("2", Some "-7.9") /\
+  chain_of 5 cards (Like 4 [ORho "-7.9"]) =
+    Ok (["1"; "-1.0"], [[OOther]; [OMat "2"; ORho "-7.80"; OOther]; [OOther]; [ORho "-7.9"]]).
+Proof. vm_compute. repeat split. Qed.
 
 (* ------------------------------------------------------------------------ *)
 (* provenance: the filler, not the container                                 *)
